@@ -339,6 +339,8 @@ type c26Stats struct {
 	// a duration expression holds an unparenthesised unary plus (DurationExpr{Op: ADD, LHS: nil}),
 	// which the printer deliberately omits
 	durUnaryPlus bool
+	// a duration-flavoured number literal with the value -0 ("-0m")
+	negZeroDuration bool
 }
 
 // c26RightmostOffsetExpr reports whether the last thing printed for e is an offset given
@@ -366,16 +368,13 @@ func c26RightmostOffsetExpr(e parser.Expr) bool {
 // because of the leading sign; printed as "offset 30s + 0" the grammar ends the offset at
 // the literal and takes "+ 0" as a binary operator on the selector.
 func c26OffsetLiteralFirst(d *parser.DurationExpr) bool {
-	if d == nil || d.Wrapped || d.LHS == nil || d.RHS == nil {
+	if d == nil {
 		return false
 	}
-	switch d.Op {
-	case parser.ADD, parser.SUB, parser.MUL, parser.DIV, parser.MOD, parser.POW:
-	default:
-		return false
-	}
-	// descend to the leftmost leaf: a literal, step(), range() or min_of/max_of(...) is a
-	// complete offset on its own for the grammar's offset_duration_expr rule
+	// descend along what is printed first: a literal, step(), range() or min_of/max_of(...),
+	// possibly behind a sign, is a complete offset on its own for the grammar's
+	// offset_duration_expr rule; a binary operator after it is then taken as PromQL operator
+	sawBinary := false
 	var l parser.Expr = d
 	for {
 		de, ok := l.(*parser.DurationExpr)
@@ -387,18 +386,23 @@ func c26OffsetLiteralFirst(d *parser.DurationExpr) bool {
 		}
 		switch de.Op {
 		case parser.STEP, parser.RANGE, parser.MIN_OF, parser.MAX_OF:
-			return true
+			return sawBinary
 		case parser.ADD, parser.SUB, parser.MUL, parser.DIV, parser.MOD, parser.POW:
 			if de.LHS == nil {
-				return false
+				if de.RHS == nil {
+					return false
+				}
+				l = de.RHS // unary sign
+				continue
 			}
+			sawBinary = true
 		default:
 			return false
 		}
 		l = de.LHS
 	}
 	_, isLit := l.(*parser.NumberLiteral)
-	return isLit
+	return isLit && sawBinary
 }
 
 func c26Inspect(e parser.Expr) c26Stats {
@@ -408,8 +412,11 @@ func c26Inspect(e parser.Expr) c26Stats {
 		if x.Duration {
 			st.durationNumLiteral = true
 			st.kinds["NumberLiteral:duration"] = true
-			if v := math.Abs(x.Val); v < 1e9 && int64(v*1e9)/1e6 != int64(math.Round(v*1e3)) {
+			if v := math.Abs(x.Val); v < 9.2e9 && int64(v*1e9)/1e6 != int64(math.Round(v*1e3)) {
 				st.durLiteralTruncates = true
+			}
+			if x.Val == 0 && math.Signbit(x.Val) {
+				st.negZeroDuration = true
 			}
 		}
 	}
@@ -563,6 +570,9 @@ func c26KnownSig(st c26Stats, diff string) string {
 	case st.nanDuration:
 		// "offset NaN" / "[NaN]" pass the range checks and become time.Duration(math.MinInt64)
 		return "nan-duration-accepted"
+	case st.negZeroDuration && strings.HasSuffix(field, ".Val"):
+		// NumberLiteral{Val: -0, Duration: true} prints "0s": the sign test is Val < 0
+		return "negative-zero-duration-literal-printed-unsigned"
 	case st.durUnaryPlus:
 		// "offset + step()" is DurationExpr{ADD, RHS: step()}; printed as "offset step()" it comes
 		// back as DurationExpr{STEP}, and a following operator may change sides
@@ -651,6 +661,11 @@ func runC26(c c26Case, r *ev.Rec) error {
 		return ev.Failf("source %q printed as %q; parsing that panicked: %v", c.Src, s1, pn)
 	}
 	if err != nil {
+		if c.Opts&2 == 0 && st.kinds["DurationExpr"] {
+			// "offset +(30s)" goes through a grammar rule that does not check the feature flag; the
+			// printed "offset (30s)" goes through one that does
+			return ev.FailSig("duration-expr-accepted-while-disabled", "source %q [opts %04b] parses, but its printed form %q does not: %v", c.Src, c.Opts, s1, err)
+		}
 		if st.nanDuration {
 			return ev.FailSig("nan-duration-accepted", "source %q [opts %04b] parses, but its printed form %q does not: %v", c.Src, c.Opts, s1, err)
 		}
